@@ -27,6 +27,18 @@ CHECKS = {
  "C18": dict(tech="exhaustive enumeration of insertion points x annotation kinds x all texts up to a length bound; normalised instruction streams compared via the independent TEAL grammar",
              text="Every insertion point of every base program x Comment / Assert comment / Pragma / Nonce / subroutine name x every text of length <= L over an adversarial alphabet (quotes, //, ;, backslash, line breaks, U+2028, colon) plus a list of nasty texts: comment lines dropped, labels alpha-renamed, the Nonce byte/pop pair removed, the instruction streams must be identical and the annotated text must still assemble.",
              note="line structure as the go-algorand assembler sees it (only \\n ends a line)", ref="2/C18"),
+ "C12": dict(tech="exhaustive enumeration of constant-load sequences over a spelling alphabet, k repeated constants for k up to 300, control-flow recipes; site-by-site comparison through an independent literal decoder + differential execution",
+             text="Every sequence of <= k constant loads over 18 spellings (ints, named enums, every byte-literal syntax, addr, method, templates), k distinct repeated constants for k crossing 4/128/255/256, and control-flow recipes, compiled with and without assembleConstants at several versions: each constant site must load the value the pseudo-op denotes through an in-range, encodable block index, all other instructions are identical, and both programs behave identically.",
+             note="literal grammar of vf/avm/tokens.py; reference AVM", ref="2/C12"),
+ "C13": dict(tech="exhaustive enumeration of literal texts up to a length bound over adversarial alphabets per literal kind; emitted line decoded by an independent port of the go-algorand literal grammar vs Python's decoding",
+             text="Every string of length <= L over an 18-character adversarial alphabet for Bytes(str), all single bytes (pairs in thorough), every base16/32/64 text up to length 4-5 over mixed valid/invalid alphabets, every single-character corruption of two valid addresses, boundary Ints, every MethodSignature text up to length 3-4: the program must keep its instruction count and the decoded literal must equal Python's decoding; malformed literals must be rejected at construction.",
+             note="go-algorand tokenizer/literal grammar ported in vf/avm/tokens.py; RFC 4648 well-formedness", ref="2/C13"),
+ "C16": dict(tech="exhaustive enumeration of factor-count shapes x all assignments of a boundary value alphabet + constructed near-overflow lists; execution on reference AVM vs Python big integers",
+             text="For every (n,d) shape, every assignment of the per-shape boundary alphabet and constructed factor lists around 2^64 and 2^128: the compiled WideRatio must approve with exactly floor(prod n / prod d) when every running product fits 128 bits, the denominator is non-zero and the quotient fits 64 bits, and must fail otherwise.",
+             note="reference AVM wide arithmetic; values from boundary alphabets", ref="2/C16"),
+ "C19": dict(tech="exhaustive enumeration of all ordered pairs of a bounded ABI type universe; independent ARC-4 layout normal form + reference codec on sample values; call-site cross-check",
+             text="All ordered pairs of 224 (thorough: more) type specs: assignable(a,b) must imply equal normalised ARC-4 layouts and identical reference encodings of sample values; subroutine parameters must accept exactly the assignable argument types.",
+             note="algosdk.abi as reference codec; universe bounded to depth 2", ref="2/C19"),
 }
 NOT_YET = {}
 props = [json.loads(l) for l in open(os.path.join(HERE, "properties.jsonl"))]
